@@ -236,6 +236,12 @@ func (h *mgHeap) fieldTerm(v reflect.Value, path string) (string, bool) {
 					m.SetMapIndex(k, reflect.Value{})
 				}
 			})
+		} else if t.Elem().Kind() == reflect.Ptr && t.Elem().Elem().Kind() == reflect.Struct {
+			// an empty map is a cell too (MergeEmptyMaps keeps it): the write is an insertion
+			m := v
+			h.cell(p, "map", "empty-keyed-list", path, func() {
+				m.SetMapIndex(reflect.Zero(m.Type().Key()), reflect.New(m.Type().Elem().Elem()))
+			})
 		}
 		var es []keyedEntry
 		it := v.MapRange()
